@@ -372,3 +372,34 @@ func canaryOldAtCall(p *Header) {
 }
 
 func canaryIncr(p *Header) { p.Version++ }
+
+func canaryPad4(n int) int { return (n + 3) &^ 3 }
+
+func canaryFullSlice(a []byte) []byte {
+	b := a[0:1:1]
+	b = append(b, 7)
+	return b
+}
+
+func canaryRecover(p *Header) (r int) {
+	defer func() {
+		if recover() != nil {
+			r = 5
+		}
+	}()
+	var q *Header
+	p.Version = q.Version
+	return 1
+}
+
+func canaryTypeAssert(v interface{}) int {
+	return v.(int)
+}
+
+func canaryRangeChan(ch chan int) int {
+	s := 0
+	for v := range ch {
+		s += v
+	}
+	return s
+}
